@@ -1,0 +1,41 @@
+//go:build verif
+
+package geom
+
+// Contracts for the WKT writer (C05): type tag and coordinate-type tag,
+// EMPTY placement, ordinate count and separators of a coordinate, bracketed
+// comma-separated sequences.
+
+//@ prop C05
+
+//@ pred TagLen(t) = ite(t == 0, 0, ite(t == 3, 4, 3))
+//@ func appendWKTHeader
+//@   split ctype 0 1 2 3
+//@   requires ctype < 4
+//@   modifies dst
+//@   ensures len(result) == len(dst) + len(geomType) + TagLen(ctype)
+//@   ensures forall q :: 0 <= q && q < len(dst) ==> result[q] == old(dst[q])
+//@   ensures (cap(dst) > 0 && region(result) == region(dst) && offset(result) == offset(dst)) || fresh(result)
+
+// EMPTY is set off from what precedes it by '(' ',' or a single space
+//@ func appendWKTEmpty
+//@   modifies dst
+//@   ensures len(result) >= len(dst) + 5 && len(result) <= len(dst) + 6
+//@   ensures forall q :: 0 <= q && q < len(dst) ==> result[q] == old(dst[q])
+//@   ensures (cap(dst) > 0 && region(result) == region(dst) && offset(result) == offset(dst)) || fresh(result)
+
+// a coordinate: X Y [Z] [M] separated by single spaces, optionally parenthesised
+//@ pred CoordLen(c) = FLen(c.XY.X) + 1 + FLen(c.XY.Y) + ite(HasZ(c.Type), 1 + FLen(c.Z), 0) + ite(HasM(c.Type), 1 + FLen(c.M), 0)
+//@ func appendWKTCoords
+//@   split coords.Type 0 1 2 3
+//@   requires coords.Type < 4
+//@   modifies dst
+//@   ensures Kept(result, dst)
+//@   ensures len(result) == len(dst) + CoordLen(coords) + ite(parens, 2, 0) && len(result) >= len(dst) + 3
+//@   ensures parens ==> result[len(dst)] == 40 && result[len(result) - 1] == 41
+//@   ensures result[len(dst) + ite(parens, 1, 0) + FLen(coords.XY.X)] == 32
+
+//@ func appendWKTSequence
+//@   modifies dst
+//@   ensures Kept(result, dst) && len(result) >= len(dst) + 2 && result[len(dst)] == 40 && result[len(result) - 1] == 41
+//@   loop 0 invariant 0 <= i && i <= n && n == NPts(seq) && Kept(dst, old(dst)) && dst[len(old(dst))] == 40 && (i == 0 ==> len(dst) == len(old(dst)) + 1) && (i > 0 ==> len(dst) >= len(old(dst)) + 4)
